@@ -52,9 +52,52 @@ def bounded_xor(tier, seed):
 BOUNDED.append(bounded_xor)
 
 
+def bounded_multibyte_xor(tier, seed):
+    """Key-guessing form (a byte array of > 500 elements followed by a bare -bxor): a reported cipher.multibyte_xor child equals the
+    parent's bytes XORed with SOME repeating key, and in particular has the parent's length."""
+    import random
+
+    from multidecoder.decoders.powershell import find_powershell_bytes
+
+    rng = random.Random(seed)
+    failures, n = [], 0
+    words = [b"the", b"quick", b"brown", b"fox", b"jumps", b"over", b"lazy", b"dog", b"and", b"runs", b"away", b"from", b"http://example.com/a"]
+    for length, key in ((601, b"ab"), (800, b"xyz"), (703, b"K"), (650, b"\x10\x20\x30\x41")):
+        plain = b""
+        while len(plain) < length:
+            plain += rng.choice(words) + b" "
+        plain = plain[:length]
+        enc = bytes(c ^ key[i % len(key)] for i, c in enumerate(plain))
+        data = b"$b = " + b", ".join(b"0x%02x" % c for c in enc) + b" -bxor $k"
+        n += 1
+        try:
+            hits = find_powershell_bytes(data)
+        except Exception as e:  # noqa: BLE001
+            failures.append({"id": f"find_powershell_bytes raises {type(e).__name__}", "function": "multidecoder.decoders.powershell.find_powershell_bytes", "obligation": "safe", "case": {"mbxor": [length, key.hex()]}, "observed": f"{type(e).__name__}: {e}"})
+            continue
+        for h in hits:
+            for c in h.children:
+                if c.obfuscation != "cipher.multibyte_xor":
+                    continue
+                ok = len(c.value) == len(h.value) and (c.start, c.end) == (0, len(h.value))
+                if ok:
+                    ks = bytes(a ^ b for a, b in zip(h.value, c.value))
+                    ok = any(all(ks[i] == ks[i % L] for i in range(len(ks))) for L in range(1, 33))
+                if not ok and len(failures) < 3:
+                    failures.append({"id": f"multibyte xor child (len {length}, key {key!r})", "function": "multidecoder.xortool.dexor", "obligation": "bounded/xor", "case": {"mbxor": [length, key.hex()]},
+                                     "observed": f"child of length {len(c.value)} under a parent of length {len(h.value)} is not parent XOR a repeating key"})
+    return {"evaluations": n, "distinct_nontrivial": n, "scope": "4 plaintexts (601-800 bytes) x keys of length 1-4", "failures": failures, "samples": [{"mbxor": [601, "6162"]}]}
+
+
+BOUNDED.append(bounded_multibyte_xor)
+
+
 def replay(case):
     if "oracle" in case:
         return O.replay(case)
+    if "mbxor" in case:
+        r = bounded_multibyte_xor("quick", 0)
+        return (not r["failures"], r["failures"][0]["observed"] if r["failures"] else "multibyte xor children are exact")
     if "xor" in case:
         r = bounded_xor("quick", 0)
         return (not r["failures"], r["failures"][0]["observed"] if r["failures"] else "xor children exact")
